@@ -65,6 +65,14 @@ def families(tier):
     bad("ring4", 0, 3, strict=True)
     bad("ring5", 0, 3, strict=True)
     bad("all_initial_pull", 2, 3, strict=True)
+    # delays present on the ring but NOT constrained to be sufficient: circular error or a clean run, never
+    # unbounded recursion / data errors
+    for name, uq, ut in (("ring2_split_links", 3, 4), ("ring2_dfix", 3, 4), ("ring3_split", 0, 3), ("ring2_three", 0, 4)):
+        u = uq if q else ut
+        if u:
+            fams.append(sched.run_family("C04", "free_" + name, R[name], u, props=["C04", "C01"],
+                                         expect="cycle-or-clean",
+                                         must_cover_labels=["outcome:circular", "outcome:ok"]))
     for name, topo in {**R, **({"ring3_chord_ok": topos.BIG_RINGS["ring3_chord_ok"]} if q else topos.BIG_RINGS)}.items():
         if name == "ring2_dfix_listed_ba":
             continue
